@@ -24,9 +24,17 @@ PROP["jobs"] += tree_jobs()
 PROP["lean_modules"] += TREE_MODULES
 PROP["rule"] += TREE_RULE
 PROP["assumptions"] = list(PROP["assumptions"]) + TREE_ASSUME
+# arch-v2 shared sink (N source workers on one shared TaskNode subtree): Model/SharedSink.lean, Props/SharedSink.lean
+# (C05_v2_shared_*), Facts/SharedSink.lean, trace replay of the funnelshared runs (driver component sharedsink)
+from funnel_common import funnel_sharedsink_job, SHAREDSINK_MODULES, SHAREDSINK_STRENGTH, SHAREDSINK_ASSUME
+PROP["lean_modules"] += SHAREDSINK_MODULES
+PROP["jobs"].append(funnel_sharedsink_job("C05"))
+PROP["strength"] += SHAREDSINK_STRENGTH
+PROP["assumptions"] = list(PROP["assumptions"]) + SHAREDSINK_ASSUME
 
 META = {
     "text": 'Lean 4 theorems for every status vector: the sub-batches the arch-v2 worker hands to the next task are non-empty, contiguous, in index order and cover the batch exactly once (C05_subbatches_partition / _cover / _groups_progress). The executable model of the whole pass (Model/Funnel.lean) is tied to the real funnel.Worker by equality of event logs on generated topologies/scripts, and the C05 monitor (per destination: roots non-decreasing, no record written twice) is evaluated on every implementation trace. v1: every node protocol preserves per-source order for all schedules (C05_v1_*), tied by `pipe` trace acceptance.',
     "note": 'v1: proved for the product model (C05_v1_node_protocols_preserve_order, _writes_in_read_order, _filtered_absent). v2: loop partition proved; Monitor soundness is PROVED for the model for linear and one-level fan-out trees — the only shapes lifecycle-poc builds (source → processors → fan-out → per-branch processors → destination): PROVED for the model of the builder (Props/TreeShape workerTree_fan1/_kind/_tasks/_dests, monitor_sound_built; Props/TreeBuilt built_fan1/_kind/_dests/_nodup, buildWorkers_never_bug, monitor_sound_service: every tree of every configuration buildRunnablePipeline accepts; distinct task ids under IdSpaces = connector and processor ids do not meet, which the code does not check), the builder model tied to the real buildRunnablePipeline / buildSharedTail / AppendToEnd by the treeshape / appendtoend correspondence and Facts/TreeShape — RECORD SPLITTING INCLUDED (Props/MonSound: monitor_sound_linear, monitor_sound_fan1, the no-split forms monitor_sound_linear_nosplit / monitor_sound_nosplit_fan1 and the per-clause forms C01_v2_monitor_sound_*: every clause of the Lean trace monitor is silent on every run of the model, over multi-batch runs, any fuel/window/outcomes, under the decidable run hypotheses RootPreserving / FreshTags / sorted roots); for NESTED fan-out (a shape the engine API allows but the service never builds) the whole-pass claim rests on event-log equality with the model and on the monitor evaluated on every implementation trace (partial).',
     "technique": 'Lean 4 proof of the batch-partition law + model/implementation trace equality + Lean-defined trace monitor',
 }
+META["text"] += ' Shared sink: C05_v2_shared_per_root_source_order (in every shared root the visits of a source carry strictly increasing hand-off numbers, with M independently locked roots as with one), for every event list of Model/SharedSink.lean; doNextTask enters all roots (regenerated fact); real concurrent runs replayed through the model (sharedsink).'
